@@ -163,7 +163,7 @@ def job_selftest(seed):
         w = dict(D=D, x=x)
         bad, info = replay(w)
         cnt += 1
-        if bad or a != info["value"]:
+        if bad or a != info.get("value"):
             return inconclusive(f"self-test mismatch {w} {info} engine={a}")
     return held(validated=cnt, paths=cnt, queries={}, summary=f"self-test: {cnt} concrete tours: transformed source == compiled kernel == edge sum")
 
